@@ -101,12 +101,12 @@ Qed.
 (* outside CDATA and binary-flagged tags, with trimming on: a blank-only text writes nothing, any other text is encoded
    exactly as its trimmed form would be *)
 Theorem enc_text_blank e st p c :
-  is_binary_tag st = false -> in_cdata st = false -> e_ignore_empty e = true -> only_ws c = true ->
+  is_binary_tag st p = false -> in_cdata st = false -> e_ignore_empty e = true -> only_ws c = true ->
   enc_text e st p c = EOk ([], st).
 Proof. intros Hb Hc Hi Hw. unfold enc_text. now rewrite Hb, Hc, Hi, Hw. Qed.
 
 Theorem enc_text_normalised e st p c :
-  is_binary_tag st = false -> in_cdata st = false -> e_remove_blanks e = true -> only_ws c = false ->
+  is_binary_tag st p = false -> in_cdata st = false -> e_remove_blanks e = true -> only_ws c = false ->
   enc_text e st p c = enc_text e st p (strip_blanks c).
 Proof.
   intros Hb Hc Hr Hw. unfold enc_text. rewrite Hb, Hc, Hr, Hw, (strip_blanks_not_blank c Hw).
@@ -115,6 +115,6 @@ Qed.
 
 (* with keep-ws the encoder does not touch the text at all *)
 Theorem enc_text_keep e st p c :
-  is_binary_tag st = false -> in_cdata st = false -> e_ignore_empty e = false -> e_remove_blanks e = false ->
+  is_binary_tag st p = false -> in_cdata st = false -> e_ignore_empty e = false -> e_remove_blanks e = false ->
   enc_text e st p c = enc_value e st false None [] p (cstr c).
 Proof. intros Hb Hc Hi Hr. unfold enc_text. rewrite Hb, Hc, Hi, Hr. reflexivity. Qed.
